@@ -1,3 +1,464 @@
 package shapegen
 
-func genCompose(seed, n, firstIdx int) Program { return GenProgram(seed, n, firstIdx) }
+import (
+	"fmt"
+	"strings"
+
+	"pgregory.net/rapid"
+)
+
+// ---- C04: requests over composed optics
+
+// hop is one named-field step of a Join chain: a lens from struct From to the field reached by Path.
+type hop struct {
+	From string   // struct type the lens starts from
+	Key  string   // lookup key used for the derivation
+	Type string   // focus type
+	Path []string // selector path inside From
+}
+
+func isLeafEntry(sh *Shape, e Entry) bool {
+	// a field that is not itself an embedded struct (those overlap their own members)
+	for _, s := range sh.Structs {
+		if s.Name == strip(e.Type) {
+			return false
+		}
+	}
+	return true
+}
+
+func structNames(sh *Shape) map[string]bool {
+	m := map[string]bool{}
+	for _, s := range sh.Structs {
+		m[s.Name] = true
+	}
+	return m
+}
+
+// joinChains enumerates chains root -> nested struct field -> ... -> leaf, each hop derived by name.
+func joinChains(sh *Shape, from string, depth int) [][]hop {
+	l := sh.Listing(from)
+	names := structNames(sh)
+	var out [][]hop
+	for i, e := range l {
+		if e.ViaPointer || firstByKey(l, e.Key) != i {
+			continue
+		}
+		h := hop{From: from, Key: e.Key, Type: e.Type, Path: e.Path}
+		if names[e.Type] {
+			// a struct-typed field (nested or value-embedded): continue inside it
+			if depth < 3 {
+				for _, rest := range joinChains(sh, e.Type, depth+1) {
+					out = append(out, append([]hop{h}, rest...))
+				}
+			}
+			continue
+		}
+		if depth > 0 {
+			out = append(out, []hop{h})
+		}
+	}
+	return out
+}
+
+func genCompose(seed, n, firstIdx int) Program {
+	return rapid.Custom(func(t *rapid.T) Program {
+		p := Program{Seed: seed}
+		for i := 0; i < n; i++ {
+			sh := GenShapeNested(t, firstIdx+i)
+			p.Shapes = append(p.Shapes, sh)
+		}
+		for i := range p.Shapes {
+			var other *Shape
+			if len(p.Shapes) > 1 {
+				other = &p.Shapes[(i+1)%len(p.Shapes)]
+			}
+			p.Requests = append(p.Requests, GenComposeRequests(t, &p.Shapes[i], other))
+		}
+		return p
+	}).Example(seed)
+}
+
+// GenShapeNested is GenShape with more named nested struct fields (Join needs them).
+func GenShapeNested(t *rapid.T, idx int) Shape {
+	g := &shapeGen{t: t, idx: idx, sh: &Shape{Root: fmt.Sprintf("S%d", idx)}, nestedBias: true}
+	depth := rapid.SampledFrom([]int{1, 2, 3, 3}).Draw(t, "depth")
+	g.genStruct(g.sh.Root, depth, 2)
+	g.addTags()
+	return *g.sh
+}
+
+func classOf(typ string) string {
+	if u := utype(typ); u != nil {
+		return u.Class
+	}
+	return ""
+}
+
+var classTypes = map[string][]string{
+	"string": {"string", "ut.MyStr"},
+	"bytes":  {"[]byte", "ut.MyBytes"},
+	"int":    {"int8", "int16", "int32", "int64", "int", "ut.MyInt16", "ut.MyInt", "ut.MyInt64"},
+	"float":  {"float32", "float64", "ut.MyF32", "ut.MyF64"},
+}
+
+func GenComposeRequests(t *rapid.T, sh *Shape, other *Shape) []Request {
+	var reqs []Request
+	l := sh.Listing(sh.Root)
+	type target struct {
+		key, typ string
+		entry    int
+	}
+	var nameOK []target
+	for i, e := range l {
+		if !e.ViaPointer && firstByKey(l, e.Key) == i {
+			nameOK = append(nameOK, target{e.Key, e.Type, i})
+		}
+	}
+	// Join chains (depth 2 and 3; depth 3 in both associations)
+	chains := joinChains(sh, sh.Root, 0)
+	for k := 0; k < 8 && len(chains) > 0; k++ {
+		c := chains[rapid.IntRange(0, len(chains)-1).Draw(t, "chain")]
+		var hops []map[string]any
+		for _, h := range c {
+			hops = append(hops, map[string]any{"from": h.From, "key": h.Key, "type": h.Type, "path": h.Path})
+		}
+		assoc := "left"
+		if len(c) >= 3 && rapid.Bool().Draw(t, "assoc") {
+			assoc = "right"
+		}
+		reqs = append(reqs, Request{Prop: "C04", API: "join", Expect: "focus", NT: len(c) >= 3 || promoted(c), Classes: []string{fmt.Sprintf("join-depth=%d", len(c)), "assoc=" + assoc},
+			Extra: map[string]any{"hops": hops, "assoc": assoc}})
+	}
+	// converting lenses on scalar fields
+	for k := 0; k < 6 && len(nameOK) > 0; k++ {
+		x := nameOK[rapid.IntRange(0, len(nameOK)-1).Draw(t, "field")]
+		cls := classOf(x.typ)
+		switch rapid.IntRange(0, 3).Draw(t, "conv") {
+		case 0:
+			if cls == "int" || cls == "string" {
+				reqs = append(reqs, Request{Prop: "C04", API: "bimap", N: 1, ByName: true, Names: []string{x.key}, Types: []string{x.typ}, Foci: []int{x.entry}, Expect: "focus", NT: true,
+					Classes: []string{"bimap-" + cls}, Extra: map[string]any{"class": cls, "k": rapid.IntRange(1, 9).Draw(t, "k")}})
+			}
+		case 1:
+			if cls != "" {
+				views := classTypes[cls]
+				v := views[rapid.IntRange(0, len(views)-1).Draw(t, "view")]
+				reqs = append(reqs, Request{Prop: "C04", API: "bimapx", N: 1, ByName: rapid.Bool().Draw(t, "byName"), Names: []string{x.key}, Types: []string{x.typ, v}, Foci: []int{x.entry}, Expect: "focus", NT: v != x.typ,
+					Classes: []string{"bimapX-" + cls}, Extra: map[string]any{"class": cls}})
+			}
+		case 2:
+			reqs = append(reqs, Request{Prop: "C04", API: "getter", N: 1, ByName: true, Names: []string{x.key}, Types: []string{x.typ}, Foci: []int{x.entry}, Expect: "focus", NT: true, Classes: []string{"getter"}})
+		default:
+			if cls == "int" || cls == "string" {
+				reqs = append(reqs, Request{Prop: "C04", API: "setter", N: 1, ByName: true, Names: []string{x.key}, Types: []string{x.typ}, Foci: []int{x.entry}, Expect: "focus", NT: true, Classes: []string{"setter-" + cls},
+					Extra: map[string]any{"class": cls, "k": rapid.IntRange(1, 9).Draw(t, "k")}})
+			}
+		}
+	}
+	// product shapes: N distinct leaf fields of mixed types, by name
+	var leaves []target
+	for _, x := range nameOK {
+		if isLeafEntry(sh, l[x.entry]) {
+			leaves = append(leaves, x)
+		}
+	}
+	for k := 0; k < 3 && len(leaves) >= 2; k++ {
+		n := rapid.IntRange(2, min(9, len(leaves))).Draw(t, "shapeArity")
+		perm := rapid.Permutation(leaves).Draw(t, "perm")[:n]
+		r := Request{Prop: "C04", API: "shape", N: n, ByName: true, Expect: "focus"}
+		sizes := map[string]bool{}
+		for _, x := range perm {
+			r.Names, r.Types, r.Foci = append(r.Names, x.key), append(r.Types, x.typ), append(r.Foci, x.entry)
+			sizes[x.typ] = true
+		}
+		r.NT = len(sizes) >= 2
+		r.Classes = []string{fmt.Sprintf("shape-arity=%d", n)}
+		reqs = append(reqs, r)
+	}
+	// map lens (independent of the shape)
+	reqs = append(reqs, Request{Prop: "C04", API: "lensm", Expect: "focus", NT: true, Classes: []string{"map-lens"}, Extra: map[string]any{"key": rapid.SampledFrom([]string{"a", "b", "k", ""}).Draw(t, "mapkey"), "named": rapid.Bool().Draw(t, "namedMap")}})
+	// iso / morphism with the next shape of the program
+	if other != nil {
+		lo := other.Listing(other.Root)
+		type pr struct{ a, b int }
+		var cands []pr
+		usedB := map[int]bool{}
+		for _, x := range leaves {
+			for j, e := range lo {
+				if !e.ViaPointer && e.Type == x.typ && firstByKey(lo, e.Key) == j && isLeafEntry(other, e) && !usedB[j] {
+					cands = append(cands, pr{x.entry, j})
+					usedB[j] = true
+					break
+				}
+			}
+		}
+		if len(cands) > 0 {
+			k := rapid.IntRange(1, min(6, len(cands))).Draw(t, "nisos")
+			sel := rapid.Permutation(cands).Draw(t, "isoperm")[:k]
+			// list with nil entries and repeats
+			var list []int // index into sel, -1 = nil
+			for i := range sel {
+				list = append(list, i)
+			}
+			extra := rapid.IntRange(0, 3).Draw(t, "extraEntries")
+			for i := 0; i < extra; i++ {
+				pos := rapid.IntRange(0, len(list)).Draw(t, "pos")
+				v := -1
+				if rapid.IntRange(0, 2).Draw(t, "repeat") == 0 {
+					v = rapid.IntRange(0, len(sel)-1).Draw(t, "which")
+				}
+				list = append(list[:pos], append([]int{v}, list[pos:]...)...)
+			}
+			var pairs []map[string]any
+			for _, c := range sel {
+				pairs = append(pairs, map[string]any{"skey": l[c.a].Key, "spath": l[c.a].Path, "tkey": lo[c.b].Key, "tpath": lo[c.b].Path, "type": l[c.a].Type})
+			}
+			nils, nonnil := 0, map[int]bool{}
+			for _, v := range list {
+				if v < 0 {
+					nils++
+				} else {
+					nonnil[v] = true
+				}
+			}
+			reqs = append(reqs, Request{Prop: "C04", API: "morphism", Expect: "focus", NT: len(nonnil) >= 2 && nils >= 1, Classes: []string{fmt.Sprintf("isos=%d", len(sel)), fmt.Sprintf("nil-entries=%d", min(nils, 2))},
+				Extra: map[string]any{"other": other.Root, "pairs": pairs, "list": list}})
+			// a single Iso as well
+			reqs = append(reqs, Request{Prop: "C04", API: "morphism", Expect: "focus", NT: false, Classes: []string{"single-iso"},
+				Extra: map[string]any{"other": other.Root, "pairs": pairs[:1], "list": []int{0}, "single": true}})
+		}
+	}
+	return reqs
+}
+
+// promoted: some hop focuses a field promoted from an embedded struct (path longer than one selector)
+func promoted(c []hop) bool {
+	for _, h := range c {
+		if len(h.Path) > 1 {
+			return true
+		}
+	}
+	return false
+}
+
+// ---- emission of C04 requests
+
+func asStrings(v any) []string {
+	var out []string
+	switch x := v.(type) {
+	case []string:
+		return x
+	case []any:
+		for _, e := range x {
+			out = append(out, fmt.Sprint(e))
+		}
+	}
+	return out
+}
+
+func asInt(v any) int {
+	switch x := v.(type) {
+	case int:
+		return x
+	case float64:
+		return int(x)
+	}
+	return 0
+}
+
+func asInts(v any) []int {
+	var out []int
+	switch x := v.(type) {
+	case []int:
+		return x
+	case []any:
+		for _, e := range x {
+			out = append(out, asInt(e))
+		}
+	}
+	return out
+}
+
+func asMaps(v any) []map[string]any {
+	var out []map[string]any
+	switch x := v.(type) {
+	case []map[string]any:
+		return x
+	case []any:
+		for _, e := range x {
+			out = append(out, e.(map[string]any))
+		}
+	}
+	return out
+}
+
+// view value generators on which the automatic conversions are mutually inverse
+func viewGen(cls, b string) string {
+	switch cls {
+	case "int":
+		return fmt.Sprintf("func(rt *rapid.T) %s { return %s(rapid.IntRange(-100, 100).Draw(rt, \"view\")) }", b, b)
+	case "float":
+		return fmt.Sprintf("func(rt *rapid.T) %s { return %s(float32(rapid.IntRange(-4000, 4000).Draw(rt, \"view\")) / 8) }", b, b)
+	case "string":
+		return fmt.Sprintf("func(rt *rapid.T) %s { return %s(rapid.SampledFrom([]string{\"\", \"a\", \"golem\", \"\\xff\\x00\", \"a longer string than that\"}).Draw(rt, \"view\")) }", b, b)
+	default:
+		return fmt.Sprintf("func(rt *rapid.T) %s { return %s(rapid.SliceOfN(rapid.Byte(), 0, 5).Draw(rt, \"view\")) }", b, b)
+	}
+}
+
+func emitCompose(w func(string, ...any), sh *Shape, l []Entry, r Request) bool {
+	S := sh.Root
+	switch r.API {
+	case "join":
+		hops := asMaps(r.Extra["hops"])
+		var full []string
+		for i, h := range hops {
+			w("\t\tvar l%d optics.Lens[%s, %s]\n", i, h["from"], h["type"])
+			w("\t\tif !optcheck.MustNotPanic(h, \"ForProduct1[%s, %s]('%s')\", func() { l%d = optics.ForProduct1[%s, %s](%q) }) {\n\t\t\treturn\n\t\t}\n", h["from"], h["type"], h["key"], i, h["from"], h["type"], h["key"])
+			full = append(full, asStrings(h["path"])...)
+		}
+		last := hops[len(hops)-1]["type"]
+		expr := "optics.Join(l0, l1)"
+		if len(hops) == 3 {
+			if r.Extra["assoc"] == "right" {
+				expr = "optics.Join(l0, optics.Join(l1, l2))"
+			} else {
+				expr = "optics.Join(optics.Join(l0, l1), l2)"
+			}
+		} else if len(hops) == 4 {
+			expr = "optics.Join(optics.Join(l0, l1), optics.Join(l2, l3))"
+		}
+		// the intermediate structs are copied out and back: their padding may change
+		var loose []string
+		var prefix []string
+		for _, h := range hops[:len(hops)-1] {
+			prefix = append(prefix, asStrings(h["path"])...)
+			loose = append(loose, fmt.Sprintf("optcheck.L(&%s)", selector(prefix)))
+		}
+		w("\t\toptcheck.Composed(h, %q, %s, func(p *%s) *%s { return &%s }, func(p *%s) []optcheck.Loose { return []optcheck.Loose{%s} })\n",
+			expr, expr, S, last, selector(full), S, strings.Join(loose, ", "))
+		return true
+	case "bimap", "setter":
+		typ, key, path := r.Types[0], r.Names[0], selector(l[r.Foci[0]].Path)
+		k := asInt(r.Extra["k"])
+		var fm, cm, gen, view string
+		if r.Extra["class"] == "int" {
+			view = "int64"
+			fm = fmt.Sprintf("func(a %s) int64 { return int64(a) + %d }", typ, k)
+			cm = fmt.Sprintf("func(b int64) %s { return %s(b - %d) }", typ, typ, k)
+			gen = fmt.Sprintf("func(rt *rapid.T) int64 { return int64(rapid.IntRange(-100, 100).Draw(rt, \"view\")) + %d }", k)
+		} else {
+			view = "string"
+			fm = fmt.Sprintf("func(a %s) string { return optcheck.Reverse(string(a)) }", typ)
+			cm = fmt.Sprintf("func(b string) %s { return %s(optcheck.Reverse(b)) }", typ, typ)
+			gen = "func(rt *rapid.T) string { return rapid.SampledFrom([]string{\"\", \"ab\", \"golem\", \"x\\x00y\"}).Draw(rt, \"view\") }"
+		}
+		w("\t\tvar base optics.Lens[%s, %s]\n", S, typ)
+		w("\t\tif !optcheck.MustNotPanic(h, \"ForProduct1\", func() { base = optics.ForProduct1[%s, %s](%q) }) {\n\t\t\treturn\n\t\t}\n", S, typ, key)
+		if r.API == "bimap" {
+			w("\t\toptcheck.BiMap(h, \"BiMap\", optics.BiMap(base, %s, %s), func(p *%s) *%s { return &%s }, %s, %s, %s)\n", fm, cm, S, typ, path, fm, cm, gen)
+		} else {
+			w("\t\toptcheck.Setter(h, \"Setter\", optics.Setter(base, %s), func(p *%s) *%s { return &%s }, %s)\n", cm, S, typ, path, cm)
+			_ = view
+		}
+		return true
+	case "bimapx":
+		a, b, key, path := r.Types[0], r.Types[1], r.Names[0], selector(l[r.Foci[0]].Path)
+		cls := fmt.Sprint(r.Extra["class"])
+		fn := map[string]string{"string": "BiMapS", "bytes": "BiMapB", "int": "BiMapI", "float": "BiMapF"}[cls]
+		arg := fmt.Sprintf("%q", key)
+		if !r.ByName {
+			// by type: only valid when the field is the first of its type
+			if firstByType(l, a) != r.Foci[0] {
+				arg = fmt.Sprintf("%q", key)
+			} else {
+				arg = ""
+			}
+		}
+		w("\t\tvar x optics.Lens[%s, %s]\n", S, b)
+		w("\t\tif !optcheck.MustNotPanic(h, \"optics.%s[%s, %s, %s](%s)\", func() { x = optics.%s[%s, %s, %s](%s) }) {\n\t\t\treturn\n\t\t}\n", fn, S, a, b, strings.ReplaceAll(arg, "\"", "'"), fn, S, a, b, arg)
+		w("\t\toptcheck.BiMap(h, \"%s[%s -> %s]\", x, func(p *%s) *%s { return &%s }, func(v %s) %s { return %s(v) }, func(v %s) %s { return %s(v) }, %s)\n", fn, a, b, S, a, path, a, b, b, b, a, a, viewGen(cls, b))
+		return true
+	case "getter":
+		typ, key, path := r.Types[0], r.Names[0], selector(l[r.Foci[0]].Path)
+		w("\t\tvar base optics.Lens[%s, %s]\n", S, typ)
+		w("\t\tif !optcheck.MustNotPanic(h, \"ForProduct1\", func() { base = optics.ForProduct1[%s, %s](%q) }) {\n\t\t\treturn\n\t\t}\n", S, typ, key)
+		w("\t\tf := func(a %s) string { return fmt.Sprintf(\"%%T/%%d\", a, unsafe.Sizeof(a)) + optcheck.Hex(a) }\n", typ)
+		w("\t\toptcheck.Getter(h, \"Getter\", optics.Getter(base, f), func(p *%s) *%s { return &%s }, f)\n", S, typ, path)
+		return true
+	case "shape":
+		n := r.N
+		w("\t\tvar sh optics.Lens%d%s\n", n, typeArgs(S, r.Types))
+		w("\t\tif !optcheck.MustNotPanic(h, \"ForShape%d\", func() { sh = optics.ForShape%d%s(%s) }) {\n\t\t\treturn\n\t\t}\n", n, n, typeArgs(S, r.Types), quoteAll(r.Names))
+		w("\t\tar := optcheck.NewArena[%s](h.RT)\n\t\tp := ar.P()\n", S)
+		var gs, vs, ps []string
+		for i := range r.Types {
+			gs = append(gs, fmt.Sprintf("g%d", i))
+			vs = append(vs, fmt.Sprintf("v%d", i))
+			ps = append(ps, fmt.Sprintf("optcheck.P(&%s, &v%d)", selector(l[r.Foci[i]].Path), i))
+		}
+		w("\t\tbefore := ar.Snapshot()\n")
+		w("\t\t%s := sh.Get(p)\n", strings.Join(gs, ", "))
+		for i := range r.Types {
+			w("\t\toptcheck.SameAt(h, \"ForShape%d.Get component %d\", &g%d, &%s)\n", n, i+1, i, selector(l[r.Foci[i]].Path))
+		}
+		w("\t\toptcheck.PutCheck(h, \"ForShape%d.Get must not write\", ar, before, true)\n", n)
+		for i, ty := range r.Types {
+			w("\t\tv%d := optcheck.Draw[%s](h.RT)\n", i, ty)
+		}
+		w("\t\tret := sh.Put(p, %s)\n", strings.Join(vs, ", "))
+		w("\t\toptcheck.PutCheck(h, \"ForShape%d.Put(positional)\", ar, before, ret == p, %s)\n", n, strings.Join(ps, ", "))
+		// reading back gives the same tuple
+		w("\t\t%s = sh.Get(p)\n", strings.Join(gs, ", "))
+		for i := range r.Types {
+			w("\t\toptcheck.SameAt(h, \"ForShape%d.Get after Put, component %d\", &g%d, &v%d)\n", n, i+1, i, i)
+		}
+		return true
+	case "lensm":
+		key := fmt.Sprint(r.Extra["key"])
+		if r.Extra["named"] == true {
+			w("\t\toptcheck.MapLens(h, \"NewLensM[ut.MyMap]\", optics.NewLensM[ut.MyMap, string, int](%q), %q)\n", key, key)
+		} else {
+			w("\t\toptcheck.MapLens(h, \"NewLensM[map[string]int]\", optics.NewLensM[map[string]int, string, int](%q), %q)\n", key, key)
+		}
+		return true
+	case "morphism":
+		T := fmt.Sprint(r.Extra["other"])
+		pairs := asMaps(r.Extra["pairs"])
+		list := asInts(r.Extra["list"])
+		for i, p := range pairs {
+			ty := p["type"]
+			w("\t\tvar sa%d optics.Lens[%s, %s]\n\t\tvar ta%d optics.Lens[%s, %s]\n", i, S, ty, i, T, ty)
+			w("\t\tif !optcheck.MustNotPanic(h, \"ForProduct1 (iso %d)\", func() { sa%d = optics.ForProduct1[%s, %s](%q); ta%d = optics.ForProduct1[%s, %s](%q) }) {\n\t\t\treturn\n\t\t}\n", i, i, S, ty, p["skey"], i, T, ty, p["tkey"])
+			w("\t\tiso%d := optics.Iso(sa%d, ta%d)\n", i, i, i)
+		}
+		var entries []string
+		for _, v := range list {
+			if v < 0 {
+				entries = append(entries, "nil")
+			} else {
+				entries = append(entries, fmt.Sprintf("iso%d", v))
+			}
+		}
+		w("\t\tpairs := []optcheck.Pair[%s, %s]{\n", S, T)
+		seen := map[int]bool{}
+		for _, v := range list {
+			if v < 0 || seen[v] {
+				continue
+			}
+			seen[v] = true
+			p := pairs[v]
+			w("\t\t\t{Src: func(p *%s) unsafe.Pointer { return unsafe.Pointer(&%s) }, Dst: func(p *%s) unsafe.Pointer { return unsafe.Pointer(&%s) }, Type: optcheck.T[%s](), Scramble: func(rt *rapid.T, p *%s) { %s = optcheck.Draw[%s](rt) }},\n",
+				S, selector(asStrings(p["spath"])), T, selector(asStrings(p["tpath"])), p["type"], S, selector(asStrings(p["spath"])), p["type"])
+		}
+		w("\t\t}\n")
+		if r.Extra["single"] == true {
+			w("\t\toptcheck.Morph[%s, %s](h, \"Iso\", iso0, pairs)\n", S, T)
+		} else {
+			w("\t\toptcheck.Morph[%s, %s](h, \"Morphism(%s)\", optics.Morphism[%s, %s](%s), pairs)\n", S, T, strings.Join(entries, ", "), S, T, strings.Join(entries, ", "))
+		}
+		return true
+	}
+	return false
+}
